@@ -76,6 +76,15 @@ def _source(draw):
         if c <= 8 and defined and depth > 0:
             feats.add("macro_in_argument")
             return use(draw(st.sampled_from(sorted(defined))), params, depth - 1)
+        c2 = draw(st.integers(0, 5))
+        fnames = sorted(k for k, v in defined.items() if v is not None)
+        if c2 == 0 and fnames:
+            # the bare name of a function-like macro as (last) word of an argument: left alone
+            feats.add("bare_function_macro_name_in_argument")
+            return draw(st.sampled_from(["", "x ", "1 + "])) + draw(st.sampled_from(fnames))
+        if c2 == 1:
+            feats.add("word_adjacent_to_string_in_argument")
+            return draw(st.sampled_from(['abc"x"', 'foo"a,b"bar', '"s"y1', 'x"A"']))
         return draw(st.sampled_from(["a b", "1 + 2", "x"]))
 
     def use(name, params=(), depth=2):
